@@ -26,7 +26,7 @@ def main():
         t0 = time.time()
         cmd = [os.path.join(ROOT, "check"), m["property"], "--repo", sc, "--no-witness", "--tier", m.get("tier", "quick")]
         for u in m.get("units", []): cmd += ["--unit", u]
-        r = subprocess.run(cmd, capture_output=True, text=True)
+        r = subprocess.run(cmd, capture_output=True, text=True, env=dict(os.environ, **m.get("env", {})))
         hit = [l for l in r.stdout.split("\n") if l.startswith("VIOLATION")]
         if m["expect"] == "HARMLESS":   # an equivalent change: the check must stay quiet
             ok = r.returncode == 0 and not hit
